@@ -51,6 +51,7 @@ func runC12(c *Ctx) {
 		ruleSizeWithBytes(c, "C12.9")
 		c08SizeGuardOpt(c, "C12.10", false)
 		ruleDecodeSlotAgreement(c, "C12.11")
+		ruleDecoderAcceptsMaxCell(c, "C12.12")
 		ruleRawReadOnBuffer(c, "C12.8", "storage.(*btreeNode).decodeLeaf", "storage.(*btreeNode).decodeInternal")
 		sub := NewCtx("C12", c.W)
 		runC15(sub)
